@@ -288,6 +288,10 @@ def run_verus(path, rlimit=None, extra=None, timeout=600):
             res["reason"] = "solver resource limit"
         else:
             res["status"] = "failed"
+    elif diags and all(d["message"].startswith("expression simplifies to false") for d in diags):
+        # an `assert(..) by (compute)` whose closed expression Verus's interpreter evaluated to false: a refuted obligation (Verus reports it
+        # before the SMT phase, as a VIR error), not a compile problem
+        res["status"] = "failed"
     else:
         res["status"] = "undecided"
         msgs = [d["message"] for d in diags][:3]
